@@ -100,11 +100,16 @@ Inductive vcase :=
 | CDec (buf : option (list N)) (idx : nat * N) (arr : nat * list N)
     (* observed bytesToItemIndex / bytesToItemIndexArray: class 0 ok, 1 value not set, 2 invalid *)
 | CEnc (n : N) (l : list N) (b1 b2 : list N)
-| CRetry (scenario wraps cls : nat).
+| CRetry (scenario wraps cls : nat)
+| CSend (rs : list nat) (stop : option nat) (tail : nat) (cls attempts : nat).
+    (* one Send of a (possibly concurrent) retry scenario: attempt results 0 ok / 1 permanent / 2 retryable,
+       stop = attempts started when Shutdown was called, tail 2 = max elapsed time / 3 = context cancelled;
+       observed class of the returned error and number of export attempts *)
     (* retrySender.Send driven to one of its ends; cls: 0 ok, 1 failed, 2 shutdown error *)
 
 Definition send_end_of (n : nat) : send_end :=
   match n with 0 => SendOk | 1 => SendPermanent | 2 => SendNoMoreRetries | 3 => SendCtxDone | _ => SendStopped end.
+Definition attempt_of (n : nat) : attempt := match n with 0 => AOk | 1 => APermanent | _ => ARetryable end.
 Definition outcome_code (o : outcome) : nat := match o with OOk => 0 | OFailed => 1 | OShutdown => 2 end.
     (* observed itemIndexToBytes n, itemIndexArrayToBytes l *)
 
@@ -133,6 +138,9 @@ Definition check_case (c : vcase) : bool :=
        end)
   | CEnc n l b1 b2 => bytes_eqb (itemIndexToBytes n) b1 && bytes_eqb (itemIndexArrayToBytes l) b2
   | CRetry sc _ cls => Nat.eqb (outcome_code (outcome_of_send (send_end_of sc))) cls
+  | CSend rs stop tail cls attempts =>
+      let '(e, k) := send_model (map attempt_of rs) stop (send_end_of tail) 0 in
+      Nat.eqb (outcome_code (outcome_of_send e)) cls && Nat.eqb k attempts
   end.
 
 (* model output, for replay files *)
@@ -140,7 +148,8 @@ Inductive vout :=
 | OHist (obs : list iobs) (evs : list event)
 | ODec (idx : N + derr) (arr : list N + derr)
 | OEnc (b1 b2 : list N)
-| ORetry (cls : nat).
+| ORetry (cls : nat)
+| OSend (cls attempts : nat).
 
 Definition model_out (c : vcase) : vout :=
   match c with
@@ -151,4 +160,7 @@ Definition model_out (c : vcase) : vout :=
   | CDec buf _ _ => ODec (bytesToItemIndex buf) (bytesToItemIndexArray buf)
   | CEnc n l _ _ => OEnc (itemIndexToBytes n) (itemIndexArrayToBytes l)
   | CRetry sc _ _ => ORetry (outcome_code (outcome_of_send (send_end_of sc)))
+  | CSend rs stop tail _ _ =>
+      let '(e, k) := send_model (map attempt_of rs) stop (send_end_of tail) 0 in
+      OSend (outcome_code (outcome_of_send e)) k
   end.
